@@ -678,6 +678,17 @@ func check(prop, tier string) int {
 			continue
 		}
 		ok, hashOK, err := replayFile(rc, fv.Replay)
+		if err == nil && !ok && rc.cfg.ID == "C20" {
+			// engine P runs on the real clock: the executions in the worker (three of three showed the violation) and
+			// the fresh processes differ in load. What it saw is classified from its own record: a listed known finding
+			// is one whether or not this instance shows again; anything else that does not show again is harness trouble.
+			if k := matchKnown(rc, fv); k != nil {
+				merged.Inconclusive["instance of a known finding seen in the worker but not in fresh processes (real-time scenario)"]++
+				byRule[fv.V.Rule]++
+				rep = append(rep, reported{fv, k})
+				continue
+			}
+		}
 		if err == nil && !ok && fv.V.Rule == "race" {
 			// the detector's report for one schedule is not perfectly stable across processes (bounded access
 			// history): a report that cannot be reproduced is dropped and counted, it is neither a violation nor trouble
